@@ -24,7 +24,9 @@ ExBegin == IsEvent("ex.begin") /\ plan' = With(plan, Trace[l].ex, [udp |-> Trace
 
 SrvRecv == /\ IsEvent("srv.recv")
            /\ LET ev == Trace[l] IN
-              Report(l, IF ev.proto = "tcp" /\ ev.ex \notin tcSent THEN {"Inv_C16_NoSpuriousTcp"} ELSE {})
+              Report(l, (IF ev.proto = "tcp" /\ ev.ex \notin tcSent THEN {"Inv_C16_NoSpuriousTcp"} ELSE {})
+                        \* both legs go to the server the upstream is configured to dial (dial_addr), never to the URL's
+                        \cup (IF Has(ev, "srv") /\ ev.srv = "decoy" THEN {"Inv_C16_SameServer"} ELSE {}))
            /\ UNCHANGED <<plan, tok, tcSent>> /\ Rest
 
 SrvSend == /\ IsEvent("srv.send")
